@@ -434,3 +434,53 @@ def hidden_state_rules(index, rep, rule, files, what):
                   f"and nothing resets the cached value: {what} depends on when it was first asked for", loc=loc(rel, m))
     if not lazy:
         rep.ok(rule, "no stale lazily cached attribute")
+
+
+
+ONE_SHOT_BUILTINS = ("zip", "map", "filter", "iter", "reversed", "enumerate")
+
+
+def kept_one_shot_iterators(index, rels):
+    """[(rel, store node, attribute, number of read sites)]: an attribute of an object bound to a one-shot iterator (zip/map/filter/iter/
+    reversed/enumerate, a generator expression, or a same-class method whose every return is one) and read at more than one place or inside
+    a loop: the first reader exhausts it, every later reader sees it empty"""
+    from .core import walk_no_nested, dotted
+    out = []
+
+    def one_shot(v, methods, depth=0):
+        if isinstance(v, ast.GeneratorExp):
+            return True
+        if isinstance(v, ast.Call) and isinstance(v.func, ast.Name) and v.func.id in ONE_SHOT_BUILTINS:
+            return True
+        if depth == 0 and isinstance(v, ast.Call) and isinstance(v.func, ast.Attribute) and isinstance(v.func.value, ast.Name) and v.func.value.id == "self" \
+                and v.func.attr in methods:
+            rets = [r.value for r in walk_no_nested(methods[v.func.attr]) if isinstance(r, ast.Return) and r.value is not None]
+            loc_defs = {}
+            for s_ in walk_no_nested(methods[v.func.attr]):
+                if isinstance(s_, ast.Assign) and len(s_.targets) == 1 and isinstance(s_.targets[0], ast.Name):
+                    loc_defs.setdefault(s_.targets[0].id, []).append(s_.value)
+            rets = [loc_defs[r.id][0] if isinstance(r, ast.Name) and len(loc_defs.get(r.id, [])) == 1 else r for r in rets]
+            return bool(rets) and all(one_shot(r, methods, 1) for r in rets)
+        return False
+
+    for rel in rels:
+        mod = index.module(rel)
+        for cls in [n for n in mod.body if isinstance(n, ast.ClassDef)]:
+            methods = {m.name: m for m in cls.body if isinstance(m, ast.FunctionDef)}
+            for m in methods.values():
+                for st in walk_no_nested(m):
+                    if isinstance(st, ast.Assign) and len(st.targets) == 1 and isinstance(st.targets[0], ast.Attribute) \
+                            and isinstance(st.targets[0].value, ast.Name) and st.targets[0].value.id == "self" and one_shot(st.value, methods):
+                        attr = st.targets[0].attr
+                        reads = [n for n in ast.walk(cls) if isinstance(n, ast.Attribute) and n.attr == attr and isinstance(n.ctx, ast.Load)
+                                 and isinstance(n.value, ast.Name) and n.value.id == "self"]
+                        in_loop = False
+                        for r in reads:
+                            p_ = getattr(r, "_parent", None)
+                            while p_ is not None and not isinstance(p_, ast.FunctionDef):
+                                if isinstance(p_, (ast.For, ast.While)):
+                                    in_loop = True
+                                p_ = getattr(p_, "_parent", None)
+                        if len(reads) > 1 or in_loop:
+                            out.append((rel, st, attr, len(reads)))
+    return out
